@@ -14,7 +14,7 @@ import ast
 import z3
 
 from tpv import core, frame
-from tpv.core import zint, zreal, Sym, Dim
+from tpv.core import zint, zreal, Sym, Dim, STensor
 from tpv.spec import scenario, RowFn, rowwise_tensor_fn, scalar_tensor_fn
 from tpv.tlib import Tensor
 from tpv.absdom import AbstractModel, AbstractSampler
@@ -574,3 +574,63 @@ def residual_and_data_function_with_several_default_arguments(S):
     S.ensure("residual-defaults-reach-the-parameters-they-were-declared-for", kr.get("scale") is sc and kr.get("offset") is of)
     S.ensure("data-function-gets-exactly-its-declared-names", sorted(kf) == ["amp", "shift", "t", "x"])
     S.ensure("data-function-defaults-reach-the-parameters-they-were-declared-for", kf.get("amp") is am and kf.get("shift") is sh)
+
+
+class _TestFunctions:
+    """abstract test-function set: called with the coordinates it returns Points over R1('v') whose row r is an
+    arbitrary function of the coordinates of row r; get_quad_weights(n) is an arbitrary tensor with n rows"""
+
+    def __init__(self, S, w):
+        self.S, self.w, self.calls, self.qcalls = S, w, [], []
+        self.V = z3.Function("testfn", z3.RealSort(), z3.RealSort(), z3.RealSort(), z3.RealSort())
+
+    def tpv_call(self, I, args, kwargs):
+        co = args[0]
+        self.calls.append(co)
+        x, t = co["x"].val, co["t"].val
+        val = STensor([x.shape[0], Dim([])], lambda idx: self.V(zreal(x.at([idx[0], (0,)])), zreal(x.at([idx[0], (1,)])), zreal(t.at([idx[0], ()]))), "real", "testfn")
+        return self.S.new(POINTS, Tensor(val), self.S.new(RN, "v", 1))
+
+    def tpv_getattr(self, I, name):
+        from tpv.interp import Builtin
+
+        if name == "get_quad_weights":
+            def q(I2, n):
+                self.qcalls.append(n)
+                t = self.S.tensor(f"quadw{len(self.qcalls)}", [n, 1])
+                return t
+            return Builtin("get_quad_weights", q)
+        if name == "to":
+            return Builtin("to", lambda I2, *a, **k: self)
+        raise core.Unsupported(f"test function set: {name}")
+
+
+@scenario("C04", ["torchphysics.problem.conditions.variational_condition.VariationalPINNCondition.__init__", "torchphysics.problem.conditions.variational_condition.VariationalPINNCondition.forward"], configs=["xt"], bounded=BOUND + "; test-function set abstract")
+def variational_condition(S):
+    """VariationalPINNCondition: loss = mean(squared error(residual)) with the residual evaluated ONCE on exactly the
+    sampled points; it receives by name the model output at each row, the tracked coordinates, the data functions at the
+    same rows, the test functions evaluated at the SAME coordinates and the quadrature weights for exactly as many
+    points as were sampled"""
+    w = World(S)
+    tf = _TestFunctions(S, w)
+    res = RowFn("vres", ["u", "x", "t", "f", "v", "quad_weights"], 2, {"u": 2, "x": 2, "t": 1, "f": 1, "v": 1, "quad_weights": 1})
+    cond = S.new("torchphysics.problem.conditions.variational_condition.VariationalPINNCondition", w.model.obj, res, w.sobj, tf, data_functions={"f": w.fdata})
+    S.method(cond, "forward")
+    S.ensure("sampler-model-residual-test-functions-each-used-once", len(w.sampler.calls) == 1 and len(w.model.calls) == 1 and len(res.calls) == 1 and len(tf.calls) == 1 and len(tf.qcalls) == 1)
+    if not (len(res.calls) == 1 and len(tf.calls) == 1 and len(tf.qcalls) == 1):
+        return
+    kw = res.calls[0]["kwargs"]
+    S.ensure("residual-gets-exactly-its-named-arguments", sorted(kw) == ["f", "quad_weights", "t", "u", "v", "x"])
+    if sorted(kw) != ["f", "quad_weights", "t", "u", "v", "x"]:
+        return
+    S.ensure("quadrature-weights-for-as-many-points-as-were-sampled", zint(tf.qcalls[0]) == zint(w.n))
+    for nm in ("x", "t"):
+        t = kw[nm]
+        S.forall(f"{nm}-is-the-sampled-coordinate-of-the-same-row", t, lambda q, nm=nm, t=t: zreal(t.val.at(q)) == core.select_comp(q[1][0] if q[1] else 0, len(w.cols()[nm]), [(lambda k=k: w.sample_row(0, q[0])[nm][k]) for k in range(len(w.cols()[nm]))]))
+    u = kw["u"]
+    S.forall("u-is-the-model-output-at-the-same-row", u, lambda q: zreal(u.val.at(q)) == core.select_comp(q[1][0], 2, [(lambda c=c: w.model.out_terms(w.sample_row(0, q[0])["x"] + w.sample_row(0, q[0])["t"])[c]) for c in range(2)]))
+    f = kw["f"]
+    S.forall("f-is-the-data-function-at-the-same-row", f, lambda q: zreal(f.val.at(q)) == w.fdata.value_terms(w.sample_row(0, q[0])["t"] + w.sample_row(0, q[0])["x"])[0])
+    v = kw["v"]
+    S.forall("test-functions-evaluated-at-the-same-row", v, lambda q: zreal(v.val.at(q)) == tf.V(*(w.sample_row(0, q[0])["x"] + w.sample_row(0, q[0])["t"])))
+    S.ensure("coordinates-are-tracked-leaves", all(kw[nm].requires_grad for nm in ("x", "t")))
